@@ -50,6 +50,9 @@ func (ex *Exec) cutLoop(li *loopInfo, st *State) {
 	if ms.all {
 		ex.havocAll(st, fmt.Sprintf("loop %d contains an opaque call or relock", li.ordinal))
 	}
+	if ms.maps && !ms.all {
+		ex.havocMaps(st)
+	}
 	var allocs []*ssa.Alloc
 	for a := range ms.locals {
 		allocs = append(allocs, a)
@@ -81,6 +84,11 @@ func (ex *Exec) cutLoop(li *loopInfo, st *State) {
 		n := vc.fresh("alloc", SInt)
 		vc.assume(st.guard, Ge(n, old))
 		st.ghost["alloc"] = n
+	}
+	for _, g := range ms.ghosts {
+		if v, ok := st.ghost[g]; ok {
+			st.ghost[g] = vc.fresh("h."+g, v.sort)
+		}
 	}
 	if ms.locks {
 		for k, v := range st.ghost {
